@@ -389,6 +389,14 @@ func (g *Gen) ParamOrRef() M {
 		case g.RefValidOnly:
 		case g.p(0.5):
 			g.hit("paramref:dangling")
+			// also: the name of an existing shared parameter spelled without JSON-pointer escaping ("a/b" for the key "a/b":
+			// by pointer rules that designates the member "b" of a parameter "a", which does not exist)
+			for _, n := range g.paramNames {
+				if strings.ContainsAny(n, "/~") && g.p(0.5) {
+					g.hit("paramref:dangling-unescaped-name")
+					return M{"$ref": "#/parameters/" + n}
+				}
+			}
 			return M{"$ref": "#/parameters/nope"}
 		default:
 			g.hit("paramref:nonparam")
@@ -596,7 +604,7 @@ func (g *Gen) Operation(ids *idPool, dupIDs bool) M {
 	return op
 }
 
-var pathPool = []string{"/pets", "/pets/{id}", "/a", "/a-b", "/a_b", "/users/{user id}/tags", "/x~y", "/", "/q?x", "/日本"}
+var pathPool = []string{"/pets", "/pets/{id}", "/a", "/a-b", "/a_b", "/users/{user id}/tags", "/x~y", "/", "/q?x", "/日本", "/pets/", "/a//b", "/a/", "/pets/./{id}"}
 var allMethods = []string{"get", "put", "post", "delete", "options", "head", "patch"}
 
 type DocOpts struct {
